@@ -59,9 +59,16 @@ def run_case(rep, label, fn, tier="P", allowed_exceptions=(), max_paths=2000, mi
     if nret < min_returns:
         raise Exception(f"{label}: contract vacuous (no path reached the postcondition)")
     refuted = []
+    any_real_refuted = any(a["bad"] for a in agg.values() if not a["canary"])
     for name, a in sorted(agg.items()):
         if a["canary"]:
-            rep.canary(f"{label}: {name}", bool(a["bad"]))
+            # A canary (deliberately wrong clause) that is *not* refuted means the pipeline proves anything
+            # (vacuous path condition) -- unless real clauses of the same case are refuted, in which case the
+            # code under test has simply changed into what the canary says and the violation is reported below.
+            if a["bad"] or not any_real_refuted:
+                rep.canary(f"{label}: {name}", bool(a["bad"]))
+            else:
+                rep.canaries_total += 1
             continue
         res = "refuted" if a["bad"] else ("undecided" if a["und"] else "discharged")
         rep.obligation(f"{label}: {name} [{a['n']} path(s)]", res, tier, "+".join(sorted(a["backend"])), a["s"])
